@@ -15,7 +15,8 @@ RULE = ("condition strings = all expression ASTs up to a size bound over a name/
         "spellings (canonical, redundant parentheses, irregular whitespace, glued parentheses), plus all "
         "concatenations of <=4 tokens from an adversarial token set (malformed stream), plus seeded random larger "
         "expressions; distinct = distinct (text, detection set); non-trivial = >=2 operators, or a selector, or a "
-        "keyword-prefixed / underscore / digit-leading name")
+        "keyword-prefixed / underscore / digit-leading name"
+        "; plus the same condition text parsed twice in one process against different detection sets")
 ASSUMPTIONS = [
     "pyparsing implements the five combinators used by the grammar as a scannerless PEG (validated by this sweep)",
     "look-behind half of pyparsing.Keyword is not modelled (cannot fire in the Keyword grammar)",
